@@ -193,7 +193,7 @@ func (c *Clients) do(cl int, kind string, inc *Inc) *Call {
 			return err
 		}
 	case "verify":
-		if c.outstandingVerify[inc.node.idx] >= 32 {
+		if c.outstandingVerify[inc.node.idx] >= 1 { // raft iterates its maps of pending verify requests: more than one would make the order runtime-random
 			return nil
 		}
 		c.outstandingVerify[inc.node.idx]++
